@@ -194,10 +194,13 @@ def run_property(prop, tier, seed, level, explanation="", trusted_base=(), worke
             if f.endswith(".json"):
                 os.unlink(os.path.join(replay_dir, f))
 
+    known_instances = [0]
+
     def record_violation(key_obj, text, payload, confirmed):
         for e in known["findings"]:
             if _match_known(e, prop, key_obj):
                 known_hits.append((e, text))
+                known_instances[0] += payload.get("instances", 1)
                 return
         os.makedirs(replay_dir, exist_ok=True)
         h = hashlib.sha256(json.dumps(key_obj, sort_keys=True, default=str).encode()).hexdigest()[:12]
@@ -209,6 +212,7 @@ def run_property(prop, tier, seed, level, explanation="", trusted_base=(), worke
             violations.append((path, text, confirmed))
 
     refuted_by_key = {}
+    refuted_count = {}
     status_hist = {}
     for r in results:
         ob = registry.OBLIGATIONS[r["idx"]]
@@ -238,19 +242,20 @@ def run_property(prop, tier, seed, level, explanation="", trusted_base=(), worke
                 k = json.dumps(key_obj, sort_keys=True, default=str)
                 prev = refuted_by_key.get(k)
                 # several paths can fail the same (obligation, label, cases): keep the one whose model replays natively
+                refuted_count[k] = refuted_count.get(k, 0) + 1
                 if prev is None or (not (prev[1]["replay"] or {}).get("reproduced") and (inst["replay"] or {}).get("reproduced")):
                     refuted_by_key[k] = (ob, inst, key_obj)
             elif inst["status"] == "unknown":
                 undecided.append(f"{ob.name}/{inst['label']} {inst['cases']}: {inst['detail']} [{inst['backend']}]")
             else:
                 crashes.append(f"{ob.name}/{inst['label']}: status {inst['status']} {inst.get('detail', '')}")
-    for ob, inst, key_obj in refuted_by_key.values():
+    for kk, (ob, inst, key_obj) in refuted_by_key.items():
         rp = inst["replay"] or {}
         confirmed = bool(rp.get("reproduced"))
         text = f"obligation {ob.name}/{inst['label']} cases={json.dumps(inst['cases'], sort_keys=True)}"
         record_violation(key_obj, text, dict(obligation=ob.name, label=inst["label"], cases=inst["cases"], inputs=inst["inputs"],
                                              solver=dict(backend=inst["backend"], seconds=inst["seconds"], verdict="sat (negated obligation satisfiable)"),
-                                             native_replay=rp, how_to_replay=f"./check {prop} --replay <this file>"), confirmed)
+                                             native_replay=rp, how_to_replay=f"./check {prop} --replay <this file>", instances=refuted_count.get(kk, 1)), confirmed)
 
     comp_summaries = []
     bounded_eval = bounded_distinct = 0
@@ -308,8 +313,9 @@ def run_property(prop, tier, seed, level, explanation="", trusted_base=(), worke
     n_known = len(known_hits)
     wall = time.time() - t_start
     fn_hashes = function_hashes(declared_functions)
+    # obligations recorded as known findings are kept out of the proof count (they are listed separately)
     coverage = dict(
-        obligations=n_ob,
+        obligations=n_ob - known_instances[0],
         discharged=n_dis,
         checker_cmd=f"./check {prop} --tier {tier}",
         trusted_base=list(trusted_base),
